@@ -324,14 +324,15 @@ def split_case(text):
     return hdr, ops
 
 
-def shrink_case(binary, text, kind, workdir, budget=400, extra_args=()):
+def shrink_case(binary, text, kind, workdir, budget=400, extra_args=(), time_budget=150):
     """ddmin over op lines, then argument minimisation.  A candidate counts only if it fails with the same kind class."""
     hdr, ops = split_case(text)
     want = kind_class(kind)
     calls = [0]
+    t_end = time.time() + time_budget
 
     def fails(ops_):
-        if calls[0] >= budget:
+        if calls[0] >= budget or time.time() > t_end:
             return False
         calls[0] += 1
         failed, k, _ = replay_case(binary, "\n".join(hdr + ops_) + "\n", workdir, extra_args=extra_args)
@@ -446,6 +447,14 @@ def run_opfuzz(prop, part, binary, cfg, seed, tier, excludes, extra_args=()):
 
 # ---------------------------------------------------------------------------------------------- check driver
 
+def part_binary(prop, part):
+    return build_bin(part.get("bin", "%s_%s" % (prop, part["name"])), part["sources"], part.get("flavour", "asan"), part.get("cflags", ()), part.get("ldflags", ()), deps=part.get("deps", ()))
+
+
+def part_args(prop, part):
+    return ["--prop", prop] + list(part.get("args", ()))
+
+
 def write_evidence(prop, tier, seed, level, wall, violations, coverage, assumptions):
     os.makedirs(os.path.join(VERIF, "evidence"), exist_ok=True)
     ev = {"property_id": prop, "tier": tier, "seed": seed, "level": level, "wall_s": round(wall, 2), "violations": violations,
@@ -489,6 +498,15 @@ def check(prop, tier):
     findings = open_findings(prop)
     excludes = sorted({f["exclusion"] for f in findings if f.get("exclusion")})
 
+    # build everything this check needs up front, in parallel
+    try:
+        with ThreadPoolExecutor(8) as ex:
+            list(ex.map(lambda p: part_binary(prop, p), [p for p in spec["parts"] if p["kind"] == "opfuzz"]))
+    except BuildError as e:
+        print("BUILD-ERROR property=%s" % prop)
+        print(str(e)[-8000:])
+        return 2
+
     for part in spec["parts"]:
         pname = part["name"]
         kind = part["kind"]
@@ -500,7 +518,7 @@ def check(prop, tier):
         pt0 = time.time()
         try:
             if kind == "opfuzz":
-                binary = build_bin("%s_%s" % (prop, pname), part["sources"], part.get("flavour", "asan"), part.get("cflags", ()), part.get("ldflags", ()), deps=part.get("deps", ()))
+                binary = part_binary(prop, part)
             elif kind == "custom":
                 binary = None
             else:
@@ -525,13 +543,14 @@ def check(prop, tier):
             continue
 
         wd = scratch_dir("%s-%s-replay" % (prop, pname))
+        pargs = part_args(prop, part)
         # ---- replay tier: regress/<prop>/<part>-*.case must pass
         reg = sorted(glob.glob(os.path.join(VERIF, "regress", prop, pname + "-*.case")))
         nreg = 0
         for rp in reg:
             with open(rp, errors="replace") as f:
                 txt = f.read()
-            failed, k, out = replay_case(binary, txt, wd)
+            failed, k, out = replay_case(binary, txt, wd, extra_args=pargs)
             nreg += 1
             if failed:
                 violations.append((pname, rp, k))
@@ -542,13 +561,13 @@ def check(prop, tier):
             wp = os.path.join(VERIF, fd["witness"])
             with open(wp, errors="replace") as f:
                 txt = f.read()
-            failed, k, out = replay_case(binary, txt, wd)
+            failed, k, out = replay_case(binary, txt, wd, extra_args=pargs)
             if failed:
                 known_lines.append("KNOWN-FINDING: property=%s %s [%s]" % (prop, fd["what"], fd["id"]))
             else:
                 log("[note] witness of open finding %s no longer fails" % fd["id"])
         # ---- generation tier
-        res = run_opfuzz(prop, pname, binary, cfg, seed, tier, excludes, part.get("args", ()))
+        res = run_opfuzz(prop, pname, binary, cfg, seed, tier, excludes, pargs)
         detail = {"engine": "opfuzz", "cases": res["cases"], "ops": res["ops"], "nontrivial_cases": res["nontrivial"], "distinct_nontrivial": len(res["hashes"]),
                   "labels": res["labels"], "counters": res["counters"], "regress_files_replayed": nreg, "workers": res["workers"],
                   "capped_by_time": res["capped"], "excluded_patterns": excludes}
@@ -574,13 +593,13 @@ def check(prop, tier):
                 # confirm: must never finish (3x with long limit) on a small case, else inconclusive
                 hdr, ops = split_case(fl["text"])
                 body = "\n".join(hdr + ops) + "\n"
-                confirmed = all(replay_case(binary, body, wd, timeout=60, extra_args=["--alarm", "100"])[1] == "timeout" for _ in range(2))
+                confirmed = all(replay_case(binary, body, wd, timeout=60, extra_args=pargs + ["--alarm", "100"])[1] == "timeout" for _ in range(2))
                 if not confirmed:
                     inconclusive.append("%s: a case hit the alarm but finishes when replayed" % pname)
                     continue
             hdr, ops = split_case(fl["text"])
             body = "\n".join(hdr + ops) + "\n"
-            failed, k, out = replay_case(binary, body, wd)
+            failed, k, out = replay_case(binary, body, wd, extra_args=pargs)
             if not failed:
                 detail.setdefault("flaky_candidates", 0)
                 detail["flaky_candidates"] += 1
@@ -588,8 +607,8 @@ def check(prop, tier):
                 log("[warn] failure did not reproduce on replay: %s (%s)" % (p, fl["kind"]))
                 inconclusive.append("%s: failure of kind %s did not reproduce on replay" % (pname, fl["kind"]))
                 continue
-            small, ncalls = shrink_case(binary, body, k, wd, budget=cfg.get("shrink_budget", 300))
-            oks = [replay_case(binary, small, wd) for _ in range(3)]
+            small, ncalls = shrink_case(binary, body, k, wd, budget=cfg.get("shrink_budget", 300), extra_args=pargs)
+            oks = [replay_case(binary, small, wd, extra_args=pargs) for _ in range(3)]
             if not all(o[0] for o in oks):
                 inconclusive.append("%s: shrunk case fails only sometimes" % pname)
                 p = save_failure(prop, pname, small, "flaky")
@@ -656,11 +675,11 @@ def replay(path):
     for p in props.PROPS[prop]["parts"]:
         if p["name"] == part or part is None:
             if p["kind"] == "opfuzz":
-                binary = build_bin("%s_%s" % (prop, p["name"]), p["sources"], p.get("flavour", "asan"), p.get("cflags", ()), p.get("ldflags", ()), deps=p.get("deps", ()))
+                binary = part_binary(prop, p)
                 wd = scratch_dir("replay")
                 with open(path, errors="replace") as f:
                     txt = f.read()
-                failed, k, out = replay_case(binary, txt, wd)
+                failed, k, out = replay_case(binary, txt, wd, extra_args=part_args(prop, p))
                 print(out[-6000:])
                 shutil.rmtree(wd, ignore_errors=True)
                 if failed:
@@ -696,7 +715,7 @@ def setup():
 
     def one(j):
         pid, part = j
-        return build_bin("%s_%s" % (pid, part["name"]), part["sources"], part.get("flavour", "asan"), part.get("cflags", ()), part.get("ldflags", ()), deps=part.get("deps", ()))
+        return part_binary(pid, part)
     with ThreadPoolExecutor(6) as ex:
         list(ex.map(one, jobs))
     log("[setup] done in %.1fs" % (time.time() - t0))
